@@ -1,1 +1,23 @@
-fn main(){}
+//! limit-exec <bytes> <program> [args...]: run a program with RLIMIT_FSIZE = <bytes> and SIGXFSZ ignored,
+//! so that writing past the limit fails with EFBIG instead of killing the process (C04).
+use std::os::unix::process::CommandExt;
+
+fn main() {
+    let args: Vec<String> = std::env::args().skip(1).collect();
+    if args.len() < 2 {
+        eprintln!("usage: limit-exec <bytes> <program> [args...]");
+        std::process::exit(2);
+    }
+    let n: u64 = args[0].parse().expect("byte count");
+    unsafe {
+        let lim = libc::rlimit { rlim_cur: n, rlim_max: n };
+        if libc::setrlimit(libc::RLIMIT_FSIZE, &lim) != 0 {
+            eprintln!("setrlimit failed");
+            std::process::exit(2);
+        }
+        libc::signal(libc::SIGXFSZ, libc::SIG_IGN);
+    }
+    let e = std::process::Command::new(&args[1]).args(&args[2..]).exec();
+    eprintln!("exec failed: {e}");
+    std::process::exit(2);
+}
